@@ -577,8 +577,12 @@ func (eng *Engine) refinementsOf(f *ssa.Function) []string {
 // buildAll returns the VCs of a function: against its own contract (or none: safety only) and against every
 // functype / interface contract it must refine.
 func (eng *Engine) buildAll(f *ssa.Function) []*FnVC {
-	out := []*FnVC{eng.buildVC(f)}
-	for _, k := range eng.refinementsOf(f) {
+	var out []*FnVC
+	refs := eng.refinementsOf(f)
+	if eng.specs.Contracts[fnKey(f)] != nil || len(refs) == 0 {
+		out = append(out, eng.buildVC(f))
+	}
+	for _, k := range refs {
 		short := k[strings.LastIndex(k, ":")+1:]
 		con := *eng.specs.Contracts[k]
 		if own := eng.specs.Contracts[fnKey(f)]; own != nil {
